@@ -66,6 +66,22 @@ example : isEscaping [101, 115, 99, 97, 112, 101] = true := by decide
 example : exprBytes (some [101, 115, 99, 97, 112, 101]) false (.obj [60, 38, 39]) =
     .ok [38, 108, 116, 59, 38, 97, 109, 112, 59, 38, 35, 120, 50, 55, 59] := rfl
 
+/-- **expr_bytes_type_blind**: what an expression tag appends depends only on the text of the value (`str(v)`; the content
+of a str/bytes) — never on its type: the generated code has no branch on the type other than str/bytes. -/
+theorem expr_bytes_type_blind (ae : Option Str) (raw : Bool) (a b : Atom) (h : a.text = b.text) :
+    exprBytes ae raw a = exprBytes ae raw b := by
+  unfold exprBytes Atom.toBytes; rw [h]
+
+/-- **number_not_exempt**: a number is converted with `str()` and sent through the file's escape function like every
+other value that is not str/bytes.  A value of an int/float *subclass* (IntEnum, `class Q(int)`) whose `__str__` returns
+`s` is therefore the model's `.obj s`, and `escaped_output_safe` covers it. -/
+theorem number_not_exempt (ae : Option Str) (raw : Bool) (i : Int) :
+    exprBytes ae raw (.int i) = exprBytes ae raw (.obj (decInt i)) := expr_bytes_type_blind ae raw _ _ rfl
+
+-- non-vacuity: an "int" whose str() is `<b>` under xhtml_escape gives `&lt;b&gt;`
+example : exprBytes (some [120, 104, 116, 109, 108, 95, 101, 115, 99, 97, 112, 101]) false (.obj [60, 98, 62]) =
+    .ok [38, 108, 116, 59, 98, 38, 103, 116, 59] := rfl
+
 /-- unescaped data reaches the output only through `raw` (also modules) or `autoescape None` -/
 theorem unescaped_only_if_raw_or_none (ae : Option Str) (raw : Bool) (a : Atom)
     (h : exprBytes ae raw a = .ok a.toBytes) (hunsafe : safe a.toBytes = false) :
